@@ -72,6 +72,7 @@ def check_writer(chk, fn, label, expect_len=True):
                     clamps[d.n] = (1, 0)
 
     fresh = [0]
+    len_lines = []
 
     def edge_bounds(adv, ats):
         """bounds on the space available at function entry implied by a branch edge taken when `adv` bytes were already consumed"""
@@ -121,6 +122,7 @@ def check_writer(chk, fn, label, expect_len=True):
                 if not fits(bounds, adv + off + Lin(1)):
                     problems.append((node, 'write at offset %s is not covered by a remaining-size test (bounds on this path: %s%s)' % (adv + off, list(bounds), ', clamps %s' % clamps if clamps else '')))
                 if (adv + off) == Lin(0) and lenb is None:
+                    len_lines.append(node.l)
                     lenb = lin(fn, val)
                     if lenb is None:
                         lenb = 'nonlinear'
@@ -198,6 +200,16 @@ def check_writer(chk, fn, label, expect_len=True):
                 problems.append((fn.body, 'AD structure does not tile: length byte %s + 1 != bytes written %s' % (lenb, total)))
         elif expect_len and lenb == 'nonlinear':
             problems.append((fn.body, 'length byte is not a linear function of the clamped count'))
+    # the symbols of the accounting stand for one value each: a count that enters the length byte or the advance must not be modified after its declaration
+    syms = set()
+    for (adv, lenb, bounds), tr in res:
+        for x in (adv, lenb):
+            if isinstance(x, Lin):
+                syms |= set(x.t)
+    for tgt, op, val, st in stores(fn.body):
+        nm = target_name(tgt)
+        if nm in syms and nm not in (b, e) and strip_casts(tgt).k in REF_KINDS and strip_casts(tgt).d.get('local') and len_lines and st.l >= min(len_lines):
+            problems.append((st, 'the count `%s` is used for the length byte / the pointer advance and is modified at line %d (%s): the length octet written before no longer matches the octets written after - the AD structures do not tile the payload' % (nm, st.l, st.text()[:40])))
     ok = not problems and n_writes[0] > 0
     chk.instance('bounded-and-tiling', fn, '%s: %d writes on %d path(s)' % (label, n_writes[0], len(res)), ok,
                  '' if ok else (problems[0][1] if problems else 'no writes found'), node=problems[0][0] if problems else None, key=label)
